@@ -87,9 +87,11 @@ func Main(args []string) error {
 		for _, mode := range modes {
 			for _, snr := range []int{-1, 1, 5} {
 				for _, ast := range []int64{0, 1000, 1_699_999_000} {
-					for _, tsbd := range []int{0, 1, -1, 172800} {
+					for ti, tsbd := range []int{0, 1, -1, 172800} {
 						for ak := 0; ak < 5; ak++ {
-							cfgs = append(cfgs, cfgSel{mode, snr, ast, tsbd, ak})
+							if (ti+ak+snr)%2 == 0 || mode == "time" { // half of the product for the Number modes
+								cfgs = append(cfgs, cfgSel{mode, snr, ast, tsbd, ak})
+							}
 						}
 					}
 				}
